@@ -1,7 +1,7 @@
 import ObiVerif.Lemmas.FpShift
 import ObiVerif.Lemmas.FpArith
 /-!
-# Division lemmas for C20 (core Lean only): `QuoRem64`, `Uint256.Div`
+# Division lemmas for C20 (core Lean only): `QuoRem64`, `Uint128.QuoRem`, `Uint256.Div`
 -/
 namespace ObiVerif.Fp
 
@@ -46,6 +46,224 @@ theorem U128.quoRem64_spec (u : U128) (v : Nat) (hu : u.WF) (hv0 : v ≠ 0) :
     · rw [e2, Nat.mul_add_mod]
     · simp only []
       rw [e2, Nat.mul_add_div (Nat.pos_of_ne_zero hv0)]
+
+/-! ## `Uint128.QuoRem`: the trial-quotient branch (`v.w1 ≠ 0`) -/
+
+/-- `LeadingZeros64` normalises a non-zero limb: the shifted limb has its top bit set and
+`(h + 1) * 2^n` still fits -/
+theorem lz_norm {h : Nat} (h0 : h ≠ 0) (hW : h < W) :
+    bitsLeadingZeros64 h ≤ 63 ∧ 2 ^ 63 ≤ h * 2 ^ bitsLeadingZeros64 h ∧
+      (h + 1) * 2 ^ bitsLeadingZeros64 h ≤ W := by
+  unfold bitsLeadingZeros64
+  rw [if_neg h0]
+  have hL : h.log2 < 64 := (Nat.log2_lt h0).mpr (W_eq_pow ▸ hW)
+  have e : 64 - h.log2 - 1 = 63 - h.log2 := by omega
+  rw [e]
+  have l1 := Nat.log2_self_le h0
+  have l2 := @Nat.lt_log2_self h
+  have p1 : 2 ^ h.log2 * 2 ^ (63 - h.log2) = 2 ^ 63 := by rw [← Nat.pow_add]; congr 1; omega
+  have p2 : 2 ^ (h.log2 + 1) * 2 ^ (63 - h.log2) = W := by
+    rw [← Nat.pow_add, W_eq_pow]; congr 1; omega
+  refine ⟨by omega, ?_, ?_⟩
+  · rw [← p1]; exact Nat.mul_le_mul_right _ l1
+  · rw [← p2]; exact Nat.mul_le_mul_right _ (Nat.succ_le_of_lt l2)
+
+theorem four_le_sq {T e : Nat} (hT : 2 ≤ T) (he : e < T) : 4 * e ≤ T * T := by
+  obtain ⟨k, rfl⟩ : ∃ k, T = k + 2 := ⟨T - 2, by omega⟩
+  have : 4 * e ≤ 4 * (k + 1) := by omega
+  have : (k + 2) * (k + 2) = k * k + 4 * k + 4 := by grind
+  omega
+
+/-- the trial quotient `U / D` computed from the normalised top limb (`D = H * T ≤ V < D + T`,
+`H ≥ 2^63`, `U < 2^128`) is the true quotient or one more -/
+theorem trial_quot {U V D e T H : Nat} (hU : U < W * W) (hH : 2 ^ 63 ≤ H) (hT : 2 ≤ T)
+    (hD : D = H * T) (hV : V = D + e) (he : e < T) :
+    U / V ≤ U / D ∧ U / D ≤ U / V + 1 := by
+  have hGT : 2 ^ 63 * T ≤ D := hD ▸ Nat.mul_le_mul_right T hH
+  have hD0 : 0 < D := Nat.lt_of_lt_of_le (Nat.mul_pos (by decide) (by omega)) hGT
+  have hDV : D ≤ V := by omega
+  have hV0 : 0 < V := by omega
+  refine ⟨Nat.div_le_div_left hDV hD0, ?_⟩
+  -- key inequality `U * e < D * V`
+  have key : U * e < D * V := by
+    by_cases e0 : e = 0
+    · rw [e0, Nat.mul_zero]; exact Nat.mul_pos hD0 hV0
+    · have s1 : U * e < W * W * e := Nat.mul_lt_mul_of_pos_right hU (Nat.pos_of_ne_zero e0)
+      have s2 : W * W * e = 2 ^ 63 * 2 ^ 63 * (4 * e) := by
+        have : W * W = 2 ^ 63 * 2 ^ 63 * 4 := by decide
+        rw [this, Nat.mul_assoc]
+      have s3 : 2 ^ 63 * 2 ^ 63 * (4 * e) ≤ 2 ^ 63 * 2 ^ 63 * (T * T) :=
+        Nat.mul_le_mul_left _ (four_le_sq hT he)
+      have s4 : 2 ^ 63 * 2 ^ 63 * (T * T) = (2 ^ 63 * T) * (2 ^ 63 * T) := by
+        generalize 2 ^ 63 = G; grind
+      have s5 : (2 ^ 63 * T) * (2 ^ 63 * T) ≤ D * V := Nat.mul_le_mul hGT (Nat.le_trans hGT hDV)
+      omega
+  generalize hQ : U / V = Q
+  apply Nat.le_of_lt_succ
+  rw [Nat.div_lt_iff_lt_mul hD0]
+  apply Nat.lt_of_not_le
+  intro hc
+  -- hc : (Q + 2) * D ≤ U
+  have a1 : (Q + 1 + 1) * D * V ≤ U * V := Nat.mul_le_mul_right V hc
+  have a2 : U * V = U * D + U * e := by rw [hV, Nat.mul_add]
+  have a3 : D * ((Q + 1 + 1) * V) < D * (U + V) := by
+    have : D * ((Q + 1 + 1) * V) = (Q + 1 + 1) * D * V := by grind
+    rw [this, Nat.mul_add, Nat.mul_comm D U]; omega
+  have a4 := Nat.lt_of_mul_lt_mul_left a3
+  have a5 : U < V * (U / V + 1) := Nat.lt_mul_div_succ U hV0
+  rw [hQ] at a5
+  have a6 : (Q + 1 + 1) * V = V * (Q + 1) + V := by grind
+  omega
+
+theorem half_top_lt {U a1 a0 H : Nat} (hU : U < W * W) (h : a1 * W + a0 = U / 2) (hH : 2 ^ 63 ≤ H) :
+    a1 < H := by
+  simp only [W] at *; omega
+
+theorem U128.mk0_eq_ofNat {r : Nat} (hr : r < W) : (⟨0, r⟩ : U128) = U128.ofNat r := by
+  have := U128.eq_ofNat_toNat (u := ⟨0, r⟩) ⟨W_pos, hr⟩
+  rw [this]; unfold U128.toNat; simp
+
+theorem U128.cmp_ge_iff (u v : U128) (hu : u.WF) (hv : v.WF) : u.cmp v ≥ 0 ↔ v.toNat ≤ u.toNat := by
+  have := U128.cmp_spec u v hu hv
+  rw [this]
+  repeat' split
+  all_goals simp <;> omega
+
+theorem U128.quoRem_spec (u v : U128) (hu : u.WF) (hv : v.WF) (hv0 : v.toNat ≠ 0) :
+    U128.quoRem u v = .ok (U128.ofNat (u.toNat / v.toNat), U128.ofNat (u.toNat % v.toNat)) := by
+  unfold U128.quoRem
+  by_cases h : v.w1 = 0
+  · rw [if_pos h]
+    have hV : v.toNat = v.w0 := by unfold U128.toNat; rw [h]; omega
+    rw [hV] at hv0 ⊢
+    obtain ⟨q, hq, hqwf, hqval⟩ := U128.quoRem64_spec u v.w0 hu hv0
+    simp only [bind, Except.bind, pure, Except.pure]
+    rw [hq]
+    simp only []
+    rw [U128.eq_ofNat_toNat hqwf, hqval,
+      U128.mk0_eq_ofNat (Nat.lt_trans (Nat.mod_lt _ (Nat.pos_of_ne_zero hv0)) hv.2)]
+  · rw [if_neg h]
+    simp only [bind, Except.bind, pure, Except.pure]
+    obtain ⟨hn, hnorm, hfit⟩ := lz_norm h hv.1
+    generalize bitsLeadingZeros64 v.w1 = n at *
+    -- names
+    have hUlt := U128.toNat_lt hu
+    have hVdef : v.toNat = v.w1 * W + v.w0 := rfl
+    -- the normalised divisor
+    have hpq := two_pow_split (show n ≤ 64 by omega)
+    have hp := Nat.two_pow_pos n
+    have hVfit : v.toNat * 2 ^ n < W * W := by
+      have h1 : v.toNat < (v.w1 + 1) * W := by rw [hVdef, Nat.add_mul]; have := hv.2; omega
+      have h2 := Nat.mul_lt_mul_of_pos_right h1 hp
+      have h3 : (v.w1 + 1) * W * 2 ^ n = (v.w1 + 1) * 2 ^ n * W := Nat.mul_right_comm _ _ _
+      have h4 := Nat.mul_le_mul_right W hfit
+      omega
+    have hv1 := U128.leftShift_spec v n hv
+    rw [Nat.mod_eq_of_lt hVfit] at hv1
+    obtain ⟨⟨hHlt, hllt⟩, hv1val⟩ := hv1
+    have hv1val' : (v.leftShift n).w1 * W + (v.leftShift n).w0 = v.toNat * 2 ^ n := hv1val
+    clear hv1val
+    generalize (v.leftShift n).w1 = H at *
+    generalize (v.leftShift n).w0 = l at *
+    -- T = 2^(64-n), H = V / T
+    have hT2 : 2 ^ (64 - n) = 2 ^ (63 - n) * 2 := by rw [← Nat.pow_succ]; congr 1; omega
+    have hT : 2 ≤ 2 ^ (64 - n) := by have := Nat.two_pow_pos (63 - n); omega
+    have hHdiv : H = v.toNat / 2 ^ (64 - n) := by
+      have e1 : v.toNat * 2 ^ n / W = H := by
+        apply Nat.div_eq_of_lt_le
+        · omega
+        · rw [Nat.add_mul]; omega
+      rw [← e1, ← hpq, Nat.mul_comm (2 ^ n), Nat.mul_div_mul_right _ _ hp]
+    have hH63 : 2 ^ 63 ≤ H := by
+      have e1 : v.toNat * 2 ^ n = v.w1 * 2 ^ n * W + v.w0 * 2 ^ n := by
+        rw [hVdef, Nat.add_mul, Nat.mul_right_comm]
+      generalize v.w1 * 2 ^ n = X at *
+      generalize v.w0 * 2 ^ n = Y at *
+      simp only [W] at *
+      omega
+    have hVsplit : v.toNat = H * 2 ^ (64 - n) + v.toNat % 2 ^ (64 - n) := by
+      rw [hHdiv, Nat.mul_comm]; exact (Nat.div_add_mod _ _).symm
+    have hbounds := trial_quot hUlt hH63 hT rfl hVsplit (Nat.mod_lt _ (Nat.two_pow_pos _))
+    -- the shifted dividend
+    obtain ⟨⟨_, hu1lo⟩, hu1val⟩ := U128.rightShift_spec u 1 hu
+    have hu1val' : (u.rightShift 1).w1 * W + (u.rightShift 1).w0 = u.toNat / 2 := hu1val
+    clear hu1val
+    generalize (u.rightShift 1).w1 = a1 at *
+    generalize (u.rightShift 1).w0 = a0 at *
+    have ha1 : a1 < H := half_top_lt hUlt hu1val' hH63
+    obtain ⟨tq0, r0, hdiv, htq0def, _⟩ : ∃ q r, bitsDiv64 a1 a0 H = .ok (q, r) ∧
+        q = (a1 * W + a0) / H ∧ r = (a1 * W + a0) % H := ⟨_, _, bitsDiv64_ok ha1, rfl, rfl⟩
+    rw [hdiv]
+    simp only []
+    have htq0 : tq0 < W := htq0def ▸ div_limb_lt ha1 hu1lo
+    have htq : shr64 tq0 (63 - n) = u.toNat / (H * 2 ^ (64 - n)) := by
+      unfold shr64
+      rw [htq0def, hu1val', Nat.div_div_eq_div_mul, Nat.div_div_eq_div_mul, hT2]
+      congr 1
+      generalize 2 ^ (63 - n) = p; grind
+    have htqlt : shr64 tq0 (63 - n) < W :=
+      Nat.lt_of_le_of_lt (Nat.div_le_self _ _) htq0
+    rw [htq] at htqlt ⊢
+    generalize u.toNat / (H * 2 ^ (64 - n)) = tq at *
+    clear htq hdiv htq0def htq0 hVsplit hHdiv hv1val' hVfit hu1val'
+    -- the decremented trial quotient `k`
+    generalize hk : (if (tq != 0) = true then tq - 1 else tq) = k
+    have hk1 : k ≤ u.toNat / v.toNat ∧ u.toNat / v.toNat ≤ k + 1 ∧ k < W := by
+      rw [← hk]
+      obtain ⟨hb1, hb2⟩ := hbounds
+      by_cases c : tq = 0
+      · simp only [c, bne_self_eq_false, Bool.false_eq_true, if_false] at hb1 ⊢
+        exact ⟨Nat.zero_le _, by omega, W_pos⟩
+      · rw [if_pos (by simpa using c)]
+        exact ⟨by omega, by omega, by omega⟩
+    obtain ⟨hkQ, hQk, hkW⟩ := hk1
+    have hV0 : 0 < v.toNat := Nat.pos_of_ne_zero hv0
+    have hPU : v.toNat * k ≤ u.toNat :=
+      Nat.le_trans (Nat.mul_le_mul_left _ hkQ) (Nat.mul_div_le _ _)
+    have hdm := Nat.div_add_mod u.toNat v.toNat
+    have hsucc : v.toNat * (k + 1) = v.toNat * k + v.toNat := Nat.mul_succ _ _
+    -- m = v * k
+    obtain ⟨m, hm, hmwf, hmval⟩ : ∃ m, v.mul64 k = .ok m ∧ m.WF ∧ m.toNat = v.toNat * k := by
+      refine ⟨_, ?_, U128.ofNat_WF _, U128.toNat_ofNat (Nat.lt_of_le_of_lt hPU hUlt)⟩
+      rw [U128.mul64_spec v k hv hkW, if_pos (Nat.lt_of_le_of_lt hPU hUlt)]
+    rw [hm]; simp only []
+    -- r = u - m
+    obtain ⟨r, hr, hrwf, hrval⟩ : ∃ r, u.sub m = .ok r ∧ r.WF ∧ r.toNat = u.toNat - v.toNat * k := by
+      refine ⟨_, ?_, U128.ofNat_WF _, U128.toNat_ofNat (Nat.lt_of_le_of_lt (Nat.sub_le _ _) hUlt)⟩
+      rw [U128.sub_spec u m hu hmwf, hmval, if_pos hPU]
+    rw [hr]; simp only []
+    by_cases c : r.cmp v ≥ 0
+    · rw [if_pos c]
+      have hge := (U128.cmp_ge_iff r v hrwf hv).mp c
+      have hQ : u.toNat / v.toNat = k + 1 := by
+        have : k + 1 ≤ u.toNat / v.toNat := by
+          rw [Nat.le_div_iff_mul_le hV0, Nat.mul_comm]; omega
+        omega
+      rw [hQ] at hdm
+      obtain ⟨q', hq', hq'val⟩ : ∃ q', (⟨0, k⟩ : U128).add64 1 = .ok q' ∧ q' = U128.ofNat (k + 1) := by
+        refine ⟨_, ?_, rfl⟩
+        have hwf : U128.WF ⟨0, k⟩ := ⟨W_pos, hkW⟩
+        have hval : U128.toNat ⟨0, k⟩ = k := by unfold U128.toNat; simp
+        rw [U128.add64_spec _ 1 hwf, hval, if_pos (by simp only [W] at *; omega)]
+      rw [hq']; simp only []
+      obtain ⟨r', hr', hr'val⟩ : ∃ r', r.sub v = .ok r' ∧ r' = U128.ofNat (r.toNat - v.toNat) :=
+        ⟨_, by rw [U128.sub_spec r v hrwf hv, if_pos hge], rfl⟩
+      rw [hr']; simp only []
+      rw [hq'val, hr'val, hQ, hrval]
+      congr 3
+      omega
+    · rw [if_neg c]
+      have hlt : r.toNat < v.toNat := by
+        apply Nat.lt_of_not_le
+        intro hh; exact c ((U128.cmp_ge_iff r v hrwf hv).mpr hh)
+      have hQ : u.toNat / v.toNat = k := by
+        have : u.toNat / v.toNat < k + 1 := by
+          rw [Nat.div_lt_iff_lt_mul hV0, Nat.mul_comm]; omega
+        omega
+      rw [hQ] at hdm
+      rw [hQ, U128.mk0_eq_ofNat hkW, U128.eq_ofNat_toNat hrwf, hrval]
+      congr 3
+      omega
 
 /-! ## `Uint256.Div`: comparison predicates -/
 
